@@ -265,6 +265,16 @@ func reifyMap(opts *options, to reflect.Value, from *Config, validators []valida
 		}
 	}
 
+	// entries available in the map only (defaults) must validate as well
+	for _, key := range to.MapKeys() {
+		if _, configured := fields[key.String()]; configured {
+			continue
+		}
+		if err := tryRecursiveValidate(to.MapIndex(key), opts, nil); err != nil {
+			return raiseValidation(from.ctx, from.metadata, key.String(), err)
+		}
+	}
+
 	if err := runValidators(to.Interface(), validators); err != nil {
 		return raiseValidation(from.ctx, from.metadata, "", err)
 	}
